@@ -279,6 +279,10 @@ func Add(a, b *Term) *Term {
 	if b.K == TNum && b.Num.Sign() == 0 {
 		return a
 	}
+	// (x + c1) + c2  ==>  x + (c1+c2)
+	if b.K == TNum && a.K == TApp && a.Op == "+" && !a.UFun && len(a.Args) == 2 && a.Args[1].K == TNum {
+		return Add(a.Args[0], NumBig(new(big.Int).Add(a.Args[1].Num, b.Num)))
+	}
 	return app("+", SInt, a, b)
 }
 func Sub(a, b *Term) *Term {
